@@ -138,6 +138,28 @@ def check(run):
                                 run.violation("out-array-not-filled-or-not-returned", f"Wigner.rotate[horner={horner}]", inp, "out holds the values", "no")
                             if not np.array_equal(modes.ndarray, marr):
                                 run.violation("input-modified", f"Wigner.rotate[horner={horner}]", inp, "modes unchanged", "changed")
+    # rotate with out= on calculators whose range starts above |s| (the default strategy has no D blocks below ell_min there)
+    for emin in (1, 2):
+        we = spherical.Wigner(L, ell_min=emin)
+        for s in (0, -1, 1):
+            for lead in ((), (2,)):
+                modes = helpers.make_modes(rng, s, L, lead)
+                for horner in (True, False):
+                    Rq1 = quaternionic.array(helpers.random_rotor(rng))
+                    inp = {"method": "rotate", "horner": horner, "lead": list(lead), "s": s, "calculator": {"ell_min": emin, "ell_max": L}, "out": "documented-shape"}
+                    run.gap_case("rotate-out", (emin, s, lead, horner), f"rotate|ell_min={emin}|horner={horner}")
+                    try:
+                        ref = we.rotate(modes, Rq1, horner=horner).ndarray
+                        o = np.full(modes.shape, 7.0 + 3.0j)
+                        r = we.rotate(modes, Rq1, out=o, horner=horner)
+                    except Exception as e:
+                        run.violation("vectorised-call-raised", f"Wigner.rotate[horner={horner}]", inp, "Modes", repr(e))
+                        continue
+                    ok = helpers.bits_equal(r.ndarray, ref) if horner else np.allclose(r.ndarray, ref, rtol=1e-13, atol=1e-13)
+                    if not ok:
+                        run.violation("out-call-differs", f"Wigner.rotate[horner={horner}]", inp, "same as without out", "differs")
+                    if not np.shares_memory(r.ndarray, o) or not np.allclose(o, ref, rtol=1e-13, atol=1e-13):
+                        run.violation("out-array-not-filled-or-not-returned", f"Wigner.rotate[horner={horner}]", inp, "out holds the values and is returned", "no")
     # d: exp(i beta) input not modified, out used
     z = np.exp(0.3j)
     o = np.full(w.dsize, np.nan)
